@@ -115,7 +115,7 @@ func TestQueryModelHistogram(t *testing.T) {
 					probe := *wt // admit mutates: check all fields first on a copy of the windows touched
 					_ = probe
 					for _, fd := range names {
-						if !wt.wouldAdmit(familyOf(r.TS), md.Name, r.S, fd.Name, r.TS) {
+						if !wt.wouldAdmit(familyOfIv(sc.S, r.TS), md.Name, r.S, fd.Name, r.TS) {
 							ok = false
 						}
 					}
@@ -123,13 +123,13 @@ func TestQueryModelHistogram(t *testing.T) {
 						continue
 					}
 					for _, fd := range names {
-						wt.admit(familyOf(r.TS), md.Name, r.S, fd.Name, r.TS)
+						wt.admit(familyOfIv(sc.S, r.TS), md.Name, r.S, fd.Name, r.TS)
 					}
 				}
 				if written[md.Name] == nil {
 					written[md.Name] = map[string]bool{}
 				}
-				fam := familyOf(r.TS)
+				fam := familyOfIv(sc.S, r.TS)
 				if curFields[fam] == nil {
 					curFields[fam] = map[string]map[string]bool{}
 				}
